@@ -24,6 +24,10 @@ GeffProps.C12.  Four case kinds:
                    returned by the reader is compared with the stored one for the loaded properties.  A validator that
                    is enabled and declared but whose property was NOT loaded makes today's reader raise KeyError: this is
                    classified (evidence key reader_declared_but_not_loaded), accepted, and may also be a clean skip;
+  config_history   ONE ValidationConfig object handed to 2-4 validate_data / read_to_memory / geff.read calls over geffs
+                   with different declarations (none, only lineage, only tracklet, both, sphere / ellipsoid or not;
+                   properties loaded or excluded) and valid / invalid data: the object's model_dump() must be the same
+                   after every call and every verdict must equal the one obtained with a fresh equal config;
   history          sequences of validate_data calls on ONE in-memory geff object (config / directedness vary) with a
                    byte snapshot of every array around each call (a validator must not modify its input, a verdict must
                    not depend on earlier calls), on plain / read-only / non-contiguous / Fortran / big-endian arrays;
@@ -1146,6 +1150,110 @@ def judge_reader_decl(ck, c, im):
             bh[f"{be}:{r['o']}"] = bh.get(f"{be}:{r['o']}", 0) + 1
 
 
+# ======================================================================= ONE ValidationConfig object re-used over several calls
+VIAS = ["validate_data", "read_to_memory", "geff.read"]
+
+
+def _cfg_step_call(step, cfg):
+    """run one step with the given ValidationConfig object; returns the classified outcome"""
+    import geff
+    import zarr
+    from geff.core_io import write_arrays
+    from geff.core_io._base_read import read_to_memory
+    from geff.validate.data import validate_data
+
+    cc = {"declared": step["declared"], "track_order": step.get("track_order"), "d": 2}
+    g = _dispatch_geff(step.get("shape", "path"), step["bad"], reader_decl_of(cc))
+    if step["via"] == "validate_data":
+        return _classify(_outcome(lambda: validate_data(g, cfg)))
+    st = zarr.storage.MemoryStore()
+    write_arrays(st, g["node_ids"], g["node_props"], g["edge_ids"], {}, g["metadata"], structure_validation=False)
+    arg = dict((lo, a) for lo, a, _ in reader_reads({**cc, "reads": None}))[step.get("load", "all")]
+    if step["via"] == "read_to_memory":
+        return _classify(_outcome(lambda: read_to_memory(st, structure_validation=False, node_props=arg, data_validation=cfg)))
+    return _classify(_outcome(lambda: geff.read(st, structure_validation=False, node_props=arg, data_validation=cfg, backend="networkx")))
+
+
+def impl_config_history(c):
+    """ONE ValidationConfig object handed to a sequence of validate_data / read_to_memory / geff.read calls over geffs
+    with different declarations; after each call the object is dumped again, and the same call is repeated with a
+    FRESH config equal to the original one"""
+    from geff.validate.data import ValidationConfig
+
+    orig = dict(zip(FLAGS, c["config"]))
+    shared = ValidationConfig(**orig)
+    steps = []
+    for st in c["steps"]:
+        before = shared.model_dump()
+        r_shared = _cfg_step_call(st, shared)
+        after = shared.model_dump()
+        fresh = ValidationConfig(**orig)
+        r_fresh = _cfg_step_call(st, fresh)
+        steps.append({"shared": r_shared, "fresh": r_fresh, "config_before": before, "config_after": after,
+                      "fresh_config_after": fresh.model_dump()})
+    return {"steps": steps}
+
+
+def config_history_cases(rng, n_random):
+    sets = [[], ["lineage"], ["tracklet"], ["tracklet", "lineage"], ["sphere"], ["ellipsoid"], ["sphere", "ellipsoid"],
+            ["sphere", "ellipsoid", "tracklet", "lineage"]]
+    full = ["sphere", "ellipsoid", "tracklet", "lineage"]
+    all_on = [True] * 5
+    # a geff lacking a declaration first, then a fully declared one holding invalid data for that validator
+    for via1 in VIAS:
+        for via2 in VIAS:
+            for lacking, v in ((["lineage"], "tracklet"), (["tracklet"], "lineage"), ([], "tracklet"), ([], "sphere"),
+                               (["ellipsoid"], "sphere"), (["sphere"], "ellipsoid"), (["tracklet", "lineage"], "ellipsoid")):
+                for cfg in (all_on, [f == v for f in FLAGS]):
+                    yield {"kind": "config_history", "config": cfg,
+                           "steps": [{"via": via1, "declared": lacking, "bad": [], "load": "all"},
+                                     {"via": via2, "declared": full, "bad": [v], "load": "all"},
+                                     {"via": via2, "declared": full, "bad": [], "load": "all"}]}
+    # an excluded (declared but not loaded) id property first
+    for v in ("tracklet", "lineage", "sphere", "ellipsoid"):
+        for via2 in VIAS:
+            yield {"kind": "config_history", "config": [f == v for f in FLAGS],
+                   "steps": [{"via": "read_to_memory", "declared": full, "bad": [], "load": f"exclude:{v}"},
+                             {"via": via2, "declared": full, "bad": [v], "load": "all"}]}
+    for _ in range(n_random):
+        steps = []
+        for _k in range(rng.randint(2, 4)):
+            dset = rng.choice(sets)
+            via = rng.choice(VIAS) if rng.random() < 0.5 else "validate_data"
+            load = "all"
+            if via != "validate_data" and dset and rng.random() < 0.3:
+                load = rng.choice(["declared-only"] + [f"exclude:{v}" for v in dset])
+            step = {"via": via, "declared": dset, "bad": [v for v in dset if rng.random() < 0.35], "load": load}
+            if "tracklet" in dset and "lineage" in dset and rng.random() < 0.5:
+                step["track_order"] = "lineage,tracklet"
+            steps.append(step)
+        yield {"kind": "config_history", "config": [rng.random() < 0.6 for _ in range(5)], "steps": steps}
+
+
+def judge_config_history(ck, c, im):
+    ck.case(c, f"config_history:steps={len(c['steps'])}:" + "+".join(sorted({st['via'] for st in c['steps']})), nontrivial=True)
+    for k, (st, r) in enumerate(zip(c["steps"], im["steps"])):
+        cc = {"declared": st["declared"], "bad": st["bad"], "d": 2}
+        arg = dict((lo, a) for lo, a, _ in reader_reads({**cc, "reads": None}))[st.get("load", "all")]
+        want, keyerr = reader_expected(cc, st.get("load", "all"), arg, c["config"])
+        for which, before, after in (("shared", r["config_before"], r["config_after"]),
+                                     ("fresh", dict(zip(FLAGS, c["config"])), r["fresh_config_after"])):
+            if before != after:
+                ck.fail("C12:validate-modifies-config",
+                        f"{st['via']} changed the caller's ValidationConfig from {before} to {after} (step {k}, geff declaring {st['declared']})",
+                        c, r, "config unchanged")
+                break
+        def norm(o):  # noqa: E306
+            return None if o["o"] == "ok" else (o.get("call") if o["o"] == "ValueError" else o["o"])
+        gs, gf = norm(r["shared"]), norm(r["fresh"])
+        if gs != gf:
+            ck.fail("C12:config-reuse-changes-verdict",
+                    f"step {k} ({st['via']}, geff declaring {st['declared']}, invalid {st['bad']}): re-used config object gives {gs}, "
+                    f"a fresh equal config gives {gf}", c, r, gf)
+        if not (keyerr and gf == "KeyError") and gf != want:
+            ck.fail("C12:config-history-fresh-verdict", f"step {k} ({st['via']}) with a fresh config: got {gf}, expected {want}", c, r, want)
+
+
 # ======================================================================= histories on one in-memory geff; array variants
 def impl_history(c):
     """a sequence of validate_data calls on the SAME in-memory geff object (config and directedness vary);
@@ -1363,7 +1471,8 @@ def judge_lineage(ck, c, im, mo):
 # ======================================================================= the check
 IMPL = {"graph": impl_graph, "sphere": impl_sphere, "ellipsoid_shape": impl_ell_shape,
         "ellipsoid_float": impl_ell_float, "dispatch": impl_dispatch, "lineage_masked": impl_lineage,
-        "dispatch_store": impl_dispatch_store, "history": impl_history, "reader_decl": impl_reader_decl}
+        "dispatch_store": impl_dispatch_store, "history": impl_history, "reader_decl": impl_reader_decl,
+        "config_history": impl_config_history}
 
 
 def impl_obs(c):
@@ -1440,6 +1549,7 @@ def run(ck: common.Check):
     cases.extend(lineage_cases(ck.rng, 3, 1500 if ck.quick else 20000))
     cases.extend(history_cases(ck.rng, 600 if ck.quick else 8000, 600 if ck.quick else 8000))
     store_cases = list(dispatch_store_cases(full=not ck.quick)) + list(reader_decl_cases(full=not ck.quick))
+    store_cases += list(config_history_cases(ck.rng, 150 if ck.quick else 3000))
     ck.extra["corpus_cases"] = n_corpus
     ck.extra["graph_exhaustive_cases"] = n_exh
 
@@ -1476,12 +1586,16 @@ def run(ck: common.Check):
             judge_dispatch_store(ck, c, im)
         elif k == "reader_decl":
             judge_reader_decl(ck, c, im)
+        elif k == "config_history":
+            judge_config_history(ck, c, im)
     # the dispatch grid through stores and the reader (one store per case, read under all 32 configs)
     for c, im in zip(store_cases, common.pmap(impl_obs, store_cases, chunksize=1) if len(store_cases) >= 64
                      else [impl_obs(c) for c in store_cases]):
         per_kind[c["kind"]] = per_kind.get(c["kind"], 0) + 1
         if c["kind"] == "dispatch_store":
             judge_dispatch_store(ck, c, im)
+        elif c["kind"] == "config_history":
+            judge_config_history(ck, c, im)
         else:
             judge_reader_decl(ck, c, im)
     ck.extra["cases_per_kind"] = per_kind
@@ -1559,6 +1673,8 @@ def replay(rp):
         judge_dispatch_store(r, c, im)
     elif k == "reader_decl":
         judge_reader_decl(r, c, im)
+    elif k == "config_history":
+        judge_config_history(r, c, im)
     print(json.dumps({"case": c, "impl": im, "failures": r.f}, default=str))
     print("REPLAY: property holds on this input" if not r.f else "REPLAY: property FAILS on this input")
     return 0 if not r.f else 1
